@@ -370,6 +370,26 @@ func checkC07(c *Ctx) {
 		// as a value (printing, comparing, calling through a variable)
 		add("extv", fmt.Sprintf("f = %s; println(f == f, f < 1); f", n))
 	}
+	// 2b. interaction families and stateful extension sequences
+	for _, src := range interactionPrograms() {
+		add("interaction", src)
+	}
+	for _, n := range names {
+		if !strings.HasPrefix(n, "image.") {
+			continue
+		}
+		for _, a := range argU {
+			add("image", fmt.Sprintf(`image.new("x", 10, 10); %s("x", %s)`, n, a))
+			add("image", fmt.Sprintf(`image.new("x", 10, 10); %s("x", %s, %s)`, n, a, a))
+			add("image", fmt.Sprintf(`image.new("x", 10, 10); image.move_to("x", 1, 1); %s("x", 1, 2, %s)`, n, a))
+		}
+	}
+	for _, body := range []string{`println("x"); quote(unquote(a))`, `f = func() {1}; quote(unquote(a) + 1)`, `quote(unquote(a) + unquote(b))`, `1`, `error("no")`, `quote(unquote(zz))`, `x = [1]; x[0] = 2; quote(unquote(a))`} {
+		for _, use := range []string{"m(1)", "m(1, 2)", "m()", "m(m(1))", "x = m", "m.x = macro(a) {quote(1)}", `[m(1), m("s")]`, "func() {m(1)}()"} {
+			add("macro", fmt.Sprintf("m = macro(a) {%s}; %s", body, use))
+			add("macro", fmt.Sprintf("m = macro(a, b) {%s}; %s", body, use))
+		}
+	}
 	// 3. wild untyped programs
 	nw := c.Pick(3000, 60000)
 	for i := 0; i < nw; i++ {
